@@ -30,6 +30,24 @@ SP(id, m, p, spec) == [PO(id, m, p, IF spec = "short" THEN "fail" ELSE "ok", "no
 NP(id, m, p, pre, ser) == O(id, m, p, "-", "-", << >>, "none", << >>, pre, "none", "none", "ok", ser)
 
 QuickOps == {
+  PA("A:pc,help",         "A", DefKW, <<"pc", "help">>, "none", << >>),
+  PA("A:b/ok",            "A", DefKW, << >>, "b", <<"ok">>),
+  PO("A:str",             "parse_string", "A", "ok", "none", "none", "ok"),
+  PO("A:env",             "parse_env", "A", "ok", "none", "none", "ok"),
+  NP("A:defaults",        "get_defaults", "A", "ok", FALSE),
+  NP("A:instantiate",     "instantiate_classes", "A", "ok", FALSE),
+  PA("A:bad,pc",          "A", DefKW, <<"bad", "pc">>, "none", << >>),
+  PA("A:a/bad",           "A", DefKW, << >>, "a", <<"bad">>),
+  PA("A:a/pc",            "A", DefKW, << >>, "a", <<"pc">>),
+  PA("A:ok|nodef",        "A", NoDefKW, <<"ok">>, "none", << >>),
+  PO("A:obj-bad",         "parse_object", "A", "fail", "none", "none", "ok"),
+  PA("A:unk",             "A", DefKW, <<"unk">>, "none", << >>),
+  PA("A:pc,cfg",          "A", DefKW, <<"pc", "cfg">>, "none", << >>),
+  PA("A:cfgbad",          "A", DefKW, <<"cfgbad">>, "none", << >>),
+  NP("A:validate",        "validate", "A", "ok", FALSE),
+  NP("A:dump-bad",        "dump", "A", "fail", FALSE),
+  PA("B:pc",              "B", DefKW, <<"pc">>, "none", << >>),
+  PA("B:bad",             "B", DefKW, <<"bad">>, "none", << >>),
   PA("A:sel,cfgbad",      "A", DefKW, <<"sel", "cfgbad">>, "none", << >>),        \* a config that fails INSIDE apply_config, after a class was selected
   PA("A:sel,pc,cfg",      "A", DefKW, <<"sel", "pc", "cfg">>, "none", << >>),     \* --print_config before --cfg: SystemExit(0) leaves apply_config
   PA("B:sel,cfgbad",      "B", DefKW, <<"sel", "cfgbad">>, "none", << >>),        \* exit_on_error=True: SystemExit(2) leaves apply_config
@@ -59,23 +77,9 @@ QuickOps == {
   PA("B:pc,bad",          "B", DefKW, <<"pc", "bad">>, "none", << >>)
 }
 MoreOps == {
-  PA("A:pc,help",         "A", DefKW, <<"pc", "help">>, "none", << >>),
-  PA("A:b/ok",            "A", DefKW, << >>, "b", <<"ok">>),
-  PO("A:str",             "parse_string", "A", "ok", "none", "none", "ok"),
-  PO("A:env",             "parse_env", "A", "ok", "none", "none", "ok"),
-  NP("A:defaults",        "get_defaults", "A", "ok", FALSE),
-  NP("A:instantiate",     "instantiate_classes", "A", "ok", FALSE),
-  PA("A:bad,pc",          "A", DefKW, <<"bad", "pc">>, "none", << >>),
   PA("A:ncls",            "A", DefKW, <<"ncls">>, "none", << >>),
-  PA("A:a/bad",           "A", DefKW, << >>, "a", <<"bad">>),
-  PA("A:a/pc",            "A", DefKW, << >>, "a", <<"pc">>),
-  PA("A:ok|nodef",        "A", NoDefKW, <<"ok">>, "none", << >>),
-  PO("A:obj-bad",         "parse_object", "A", "fail", "none", "none", "ok"),
-  PA("A:unk",             "A", DefKW, <<"unk">>, "none", << >>),
   PA("A:pc,unk",          "A", DefKW, <<"pc", "unk">>, "none", << >>),
   PA("A:pcflag",          "A", DefKW, <<"pcflag">>, "none", << >>),
-  PA("A:pc,cfg",          "A", DefKW, <<"pc", "cfg">>, "none", << >>),
-  PA("A:cfgbad",          "A", DefKW, <<"cfgbad">>, "none", << >>),
   PA("A:pc/a/ok",         "A", DefKW, <<"pc">>, "a", <<"ok">>),
   PA("A:ok/a/unk",        "A", DefKW, <<"ok">>, "a", <<"unk">>),
   PA("A:a/pc,help",       "A", DefKW, << >>, "a", <<"pc", "help">>),
@@ -85,11 +89,7 @@ MoreOps == {
   PO("A:obj-b",           "parse_object", "A", "ok", "b", "none", "ok"),
   PO("A:str-bad",         "parse_string", "A", "fail", "none", "none", "ok"),
   PO("A:env-bad",         "parse_env", "A", "fail", "none", "none", "ok"),
-  NP("A:dump-bad",        "dump", "A", "fail", FALSE),
-  NP("A:validate",        "validate", "A", "ok", FALSE),
   NP("A:instantiate-bad", "instantiate_classes", "A", "fail", FALSE),
-  PA("B:bad",             "B", DefKW, <<"bad">>, "none", << >>),
-  PA("B:pc",              "B", DefKW, <<"pc">>, "none", << >>),
   PO("B:obj-unknown",     "parse_object", "B", "ok", "none", "error", "fail")
 }
 Ops == IF Full THEN QuickOps \cup MoreOps ELSE QuickOps
